@@ -180,7 +180,7 @@ def run(chk):
     recorded = []
     # command form: long REPL sessions
     cmdcases = [c for c in cs if c[1] and (len(c[2]) == 1 or usable_multi(c[2])) and all(len(argtext(a)) < 3500 and " " not in argtext(a) for a in c[2])]
-    nsess = 6
+    nsess = 14
     def do_repl(k):
         evs = []
         R = ptydrv.Repl([deb, "0x51"], timeout=20)
